@@ -100,6 +100,20 @@ def _one_call(api, op, fin, payload, keykind, trace_on, rng, urandom_draws, writ
             ret = -1
         elif api == "send_frame":
             ret = ws.send_frame(ABNF.create_frame(payload, op, fin))
+        elif api == "resend_frame":
+            # the same frame object sent twice, its bytearray payload refilled in place in between:
+            # the second frame on the wire is judged (fresh key, current payload)
+            first, second = payload
+            buf = bytearray(first)
+            frame = ABNF.create_frame(buf, op, fin)
+            ws.send_frame(frame)
+            buf[:] = second
+            fake.sent.clear()
+            n0 = len(urandom_draws)
+            if ks is not None:
+                ks.draws.clear()
+            ret = ws.send_frame(frame)
+            payload = bytes(second)
         else:
             raise ValueError(api)
     finally:
@@ -185,6 +199,10 @@ def gen_calls(rng, tier):
             elif isinstance(pl, str) and len(utf8_encode(pl)) > 125:
                 pl = pl[:60]
             calls.append((api, op, 1, pl, rng.choice(kinds), False))
+    for n in (0, 1, 5, 125, 126, 300, 70000):
+        for kk in kinds:
+            a, b = rng.randbytes(n), rng.randbytes(n)
+            calls.append(("resend_frame", 2, rng.choice([0, 1]), (a, b), kk, False))
     for status in (0, 1000, 1001, 1011, 3000, 4999, 65535):
         for reason in (b"", b"bye", "grüße".encode(), b"r" * 123):
             calls.append(("close", 8, 1, (status, reason), rng.choice(kinds), False))
@@ -217,7 +235,7 @@ def main(ctx):
             # every third call goes through a transport that takes the frame in several short writes
             cap = None if ci % 3 else rng.choice([1, 2, 3, 7, 64, 1000, 4096])
             if cap is not None:
-                size = len(payload) if not isinstance(payload, tuple) else 130
+                size = len(payload) if not isinstance(payload, tuple) else (len(payload[0]) if isinstance(payload[0], bytes) else 130)
                 cap = max(cap, size // 40 + 1)
             ev.append(one_call(api, op, fin, payload, kk, tr, rng, udraws, write_cap=cap))
     finally:
